@@ -203,6 +203,18 @@ def run_chunk(chunk, tier):
                     res.transitions += 1
                     res.nontrivial += 1
                     _check_accept(res, s, ref, dict(layer="G", s=s, ref={str(k): v for k, v in ref.items()}))
+        # two prefixes in the order chempy's notation accepts (greek letters in alphabet order, then the radical dot)
+        for i, g in enumerate(F.GREEK):
+            for second in [".", F.GREEK[i + 5] + "-"] if i + 5 < len(F.GREEK) else ["."]:
+                for tail, q in (("", None), ("-(aq)", -1)):
+                    s = g + "-" + second + "NO2" + tail
+                    ref = {7: 1, 8: 2}
+                    if q is not None:
+                        ref[0] = q
+                    res.states += 1
+                    res.transitions += 1
+                    res.nontrivial += 1
+                    _check_accept(res, s, ref, dict(layer="G", s=s, ref={str(k): v for k, v in ref.items()}))
         res.sample(dict(layer="G", example="gamma-FeOOH(s)"))
     elif kind == "D":
         for depth in range(1, 9):
